@@ -122,8 +122,12 @@ def build_params(spec, idnt, kw_model=None):
     mk = spec.get("model") or kw_model \
         or idnt.fit_properties.get("model_key", "hertz_para")
     if spec.get("source") == "object":
-        p = copy.deepcopy(idnt.get_initial_fit_parameters(
-            model_key=None if spec.get("model") is None else mk))
+        # the documented workflow: get the parameters, edit them, fit.
+        # "inplace": the returned object itself is edited and passed on
+        p = idnt.get_initial_fit_parameters(
+            model_key=None if spec.get("model") is None else mk)
+        if not spec.get("inplace"):
+            p = copy.deepcopy(p)
     else:
         p = model.models_available[mk].get_parameter_defaults()
     for name, ed in spec.get("edits", {}).items():
@@ -556,8 +560,10 @@ def gen_invalid_request(rng):
 
 def gen_params_spec(rng, model=None):
     spec = {"model": model, "edits": {}}
-    if rng.random() < 0.25:
+    if rng.random() < 0.3:
         spec["source"] = "object"
+        if rng.random() < 0.5:
+            spec["inplace"] = True
     n = rng.choice([0, 1, 1, 2])
     pool = [("E", {"value": rng.choice([500.0, 2000.0, 1e4])}),
             ("contact_point", {"value": rng.choice([0.0, 1e-7, -2e-7,
@@ -598,6 +604,7 @@ def gen_fit_kw(rng, nkeys=None, invalid=False):
                                 [-5e-7, 1e-6], [5e-7, -1e-6],
                                 [-8e-7, 2e-6], [0, 1e-6],
                                 [-float("inf"), 0.0], [1.9e-5, 2.2e-5],
+                                [-1e-12, 1e-12], [-1e-12, 0],
                                 [-1e-6, -1e-6], (-1e-6, 5e-7)])
         elif k == "segment":
             kw[k] = rng.choice([0, 1, "approach", "retract"])
@@ -756,8 +763,15 @@ class CurveEngineC03:
                     options = gen_options(rng, steps)
                 op = {"op": "prep",
                       "route": rng.choice(["apply", "apply", "fit_kw",
-                                           "attr"]),
+                                           "attr", "details"]),
                       "steps": steps, "options": options}
+                if rng.random() < 0.25:
+                    # the standard pipeline again (skip-if-unchanged path,
+                    # first request for details on a fitted curve)
+                    op["steps"] = ["compute_tip_position",
+                                   "correct_force_offset",
+                                   "correct_tip_offset"]
+                    op["options"] = None
                 if swarm["faults"] and rng.random() < 0.2:
                     op["fault"] = gen_fault(
                         rng, ["poc", "poc", "slopefit", "smooth", "turning",
@@ -813,9 +827,25 @@ class CurveEngineC03:
                 else:
                     op = {"op": "fit", "kw": {}}
             ops.append(op)
-        return {"config": {"curve": cfg, "swarm": swarm}, "ops": ops}
+        return {"config": {"curve": cfg, "swarm": swarm,
+                           "xproc": index % 24 == 11}, "ops": ops}
+
+    track_history = True
 
     def execute(self, run):
+        if run.get("history") and not run.get("_child"):
+            # replay of a history-dependent finding: first what this worker
+            # had executed before
+            for h in run["history"]:
+                self._execute(dict(h, _child=False))
+        res = self._execute(run)
+        if run["config"].get("xproc") and res["violation"] is None \
+                and not run.get("_child"):
+            res["violation"] = core.cross_process(self, run, res, "R4")
+            res["probes"]["run re-executed in a fresh interpreter"] = 1
+        return res
+
+    def _execute(self, run):
         seams.install_curve_seams()
         seams.install_sim_model()
         seams.install_lmfit_determinism()
@@ -1065,8 +1095,14 @@ class CurveEngineC06:
         "distinct = op-list digest; non-trivial = at least two requests, "
         "the later one issued on an object that already saw a request")
 
+    MAPCURVES = [{"kind": "recorded",
+                  "file": "fmt-jpk-fd_map2x2_extracted.jpk-force-map",
+                  "enum": k} for k in range(4)]
+
     def generate(self, rng, tier, index):
         cfg = curves.gen_curve_cfg(rng, allow_recorded=rng.random() < 0.5)
+        if rng.random() < 0.15:
+            cfg = rng.choice(self.MAPCURVES)
         swarm = {"faults": rng.random() < 0.5,
                  "invalid": rng.random() < 0.7,
                  "enum": rng.random() < 0.6,
@@ -1088,6 +1124,15 @@ class CurveEngineC06:
                 else:
                     ops.append({"op": "rate", "kw": {"regressor":
                                 rng.choice(["none", "Decision Tree"])}})
+                continue
+            if rng.random() < 0.12:
+                oc = rng.choice(self.MAPCURVES) if rng.random() < 0.6 \
+                    else curves.gen_curve_cfg(rng)
+                st = gen_pipeline(rng, full_bias=0.2)
+                if rng.random() < 0.6 and "smooth_height" not in st:
+                    st.append("smooth_height")
+                ops.append({"op": "other", "curve": oc, "steps": st,
+                            "options": gen_options(rng, st)})
                 continue
             if recent and rng.random() < 0.3:
                 # repeat an earlier request (skip-if-unchanged path, retry
@@ -1118,9 +1163,43 @@ class CurveEngineC06:
                 op["enum_faults"] = True
             ops.append(op)
             recent.append(op)
-        return {"config": {"curve": cfg, "swarm": swarm}, "ops": ops}
+        xproc = index % 8 == 5
+        if xproc:
+            # other curves (recorded map curves need wide smoothing windows)
+            # are processed before and between the main curve's requests
+            warm = []
+            for oc in rng.sample(self.MAPCURVES, 3):
+                st = ["compute_tip_position", "correct_tip_offset",
+                      "smooth_height"]
+                if rng.random() < 0.5:
+                    st.insert(2, "correct_split_approach_retract")
+                warm.append({"op": "other", "curve": oc, "steps": st,
+                             "options": None})
+            ops = warm[:2] + ops[:1] + warm[2:] + ops[1:]
+            if rng.random() < 0.7:
+                st = gen_pipeline(rng, full_bias=0.2)
+                if "smooth_height" not in st:
+                    st.append("smooth_height")
+                ops.append({"op": "prep", "route": "apply", "steps": st,
+                            "options": gen_options(rng, st)})
+        return {"config": {"curve": cfg, "swarm": swarm, "xproc": xproc},
+                "ops": ops}
+
+    track_history = True
 
     def execute(self, run):
+        if run.get("history") and not run.get("_child"):
+            for h in run["history"]:
+                self._execute(dict(h, _child=False))
+        res = self._execute(run)
+        if run["config"].get("xproc") and res["violation"] is None \
+                and not run.get("_child"):
+            res["violation"] = core.cross_process(self, run, res, "P6",
+                                                  "columns/outcomes")
+            res["probes"]["run re-executed in a fresh interpreter"] = 1
+        return res
+
+    def _execute(self, run):
         seams.install_curve_seams()
         seams.install_sim_model()
         seams.install_lmfit_determinism()
@@ -1137,6 +1216,21 @@ class CurveEngineC06:
         oracle_checks = 0
         executed = 0
         for i, op in enumerate(run["ops"]):
+            if op["op"] == "other":
+                # another curve is preprocessed in the same process (state
+                # that leaks between objects would show in later requests).
+                # The fresh-interpreter twin of a run skips these ops: the
+                # main curve's results must not depend on them.
+                if run.get("_child"):
+                    continue
+                oc = curves.make_curve(op["curve"])
+                o2 = apply_op(oc, {"op": "prep", "route": "apply",
+                                   "steps": op["steps"],
+                                   "options": op.get("options")})
+                log.append({"i": i, "op": "other", "ok": o2.get("ok"),
+                            "obs": core.digest(observe(oc))})
+                probes["other curve preprocessed in between"] += 1
+                continue
             if op["op"] != "prep":
                 outcome = apply_op(idnt, op)
                 executed += 1
@@ -1220,7 +1314,9 @@ class CurveEngineC06:
                         f"{options} {site}", i)
                     break
                 probes["accepted request re-applied"] += 1
-        return {"violation": violation, "log_digest": core.digest(log),
+        return {"violation": violation,
+                "log_digest": core.digest([e for e in log
+                                           if e.get("op") != "other"]),
                 "log": log, "probes": dict(probes), "faults": dict(faults),
                 "states": sorted(states), "nontrivial": nontrivial,
                 "oracle_checks": oracle_checks, "ops_executed": executed}
@@ -1497,42 +1593,7 @@ class CurveEngineC09:
         return res
 
     def cross_process(self, run, res):
-        import json
-        import os
-        import subprocess
-        import sys
-        import tempfile
-        child = dict(run, _child=True)
-        with tempfile.NamedTemporaryFile("w", suffix=".json",
-                                         delete=False) as fd:
-            json.dump(child, fd, default=core._json_default)
-            path = fd.name
-        try:
-            env = dict(os.environ, PYTHONHASHSEED="4242")
-            p = subprocess.run(
-                [sys.executable, "-B", "-m", "sim.main", "--exec-run", path],
-                cwd=str(core.VERIF), env=env, capture_output=True, text=True,
-                timeout=600)
-        finally:
-            os.unlink(path)
-        line = [ln for ln in p.stdout.splitlines()
-                if ln.startswith("RETS ")]
-        if p.returncode != 0 or not line:
-            raise core.HarnessError(
-                f"cross-process child failed rc={p.returncode}: "
-                f"{p.stdout[-800:]} {p.stderr[-800:]}")
-        theirs = json.loads(line[0][5:])
-        if theirs["rets"] != res["rets"]:
-            k = next((i for i, (a, b) in enumerate(
-                zip(theirs["rets"], res["rets"])) if a != b), -1)
-            return make_violation(
-                self.prop, "Q6", "other-process", {"first_diff": k},
-                f"returned ratings differ in a fresh interpreter with "
-                f"another hash seed: {res['rets']} vs {theirs['rets']}")
-        if theirs["log_digest"] != res["log_digest"]:
-            raise core.HarnessError("cross-process log digest differs "
-                                    "although ratings agree")
-        return None
+        return core.cross_process(self, run, res, "Q6")
 
     def _execute(self, run, scratch):
         cfg = run["config"]["curve"]
